@@ -38,6 +38,7 @@ def cases(draw, tier="quick"):
         P["no_listen"] = [True, True]          # the relay is the only path, in every generation
     P["kills"] = draw(st.sampled_from([0, 1, 1, 2, 3, 4]))
     P["cand_kills"] = draw(st.sampled_from([0, 0, 1, 2]))
+    P["kill_awaiting_accept"] = P["cand_kills"] > 0 and draw(st.booleans())
     P["w_kill"] = draw(st.sampled_from([1, 2, 4]))
     P["ping_interval"] = [draw(st.sampled_from([1.0, 5.0, 30.0]))] * 2
     P["settle_time"] = 45.0
@@ -124,6 +125,7 @@ def run_case(P):
     bad = []
     cand_left = [P.get("cand_kills", 0)]
     cand_killed = [0]
+    awaiting_killed = [0]
     max_cands = [0]
     dilate_steps = [None, None]
 
@@ -160,6 +162,29 @@ def run_case(P):
                     cand_killed[0] += 1
                     l.break_()
                 out.append((1, ("custom", kill_one)))
+        # the Leader's candidate whose accept() is waiting in the eventual queue is lost, and the Leader's TCP
+        # stack reports it before that turn runs (an RST processed in the same reactor iteration as the KCM)
+        li = c.leader_index()
+        if cand_left[0] > 0 and li is not None and P.get("kill_awaiting_accept"):
+            m = c.managers()[li]
+            cn = getattr(m, "_connector", None) if m is not None else None
+            if cn is not None and getattr(cn, "_winning_connection", None) is None:
+                for p_ in list(getattr(cn, "_contenders", None) or [])[:1]:
+                    t = getattr(p_, "transport", None)
+                    l = getattr(t, "link", None)
+                    if l is None or t.lost or t.broken:
+                        continue
+
+                    def kill_now(c2, l=l, t=t):
+                        from twisted.internet import error as terror
+                        cand_left[0] -= 1
+                        cand_killed[0] += 1
+                        awaiting_killed[0] += 1
+                        l.break_()
+                        if t in l.pending_notify:
+                            l.pending_notify.remove(t)
+                        t._lose(terror.ConnectionLost())
+                    out.append((12, ("custom", kill_now)))
         return out
     try:
         aged = 0
@@ -225,7 +250,8 @@ def run_case(P):
     if dilate_steps[0] is not None and dilate_steps[1] is not None:
         sep = abs(dilate_steps[0] - dilate_steps[1])
     res.nontrivial = case.kills >= 1 or max_cands[0] >= 2 or bool(sep)
-    res.features = dict(kills=common.bucket(case.kills, [0, 1, 2, 4]), cand_kills=cand_killed[0], relay=P["relay"],
+    res.notes["candidate_lost_while_awaiting_accept"] += awaiting_killed[0]
+    res.features = dict(kills=common.bucket(case.kills, [0, 1, 2, 4]), cand_kills=cand_killed[0], awaiting=awaiting_killed[0], relay=P["relay"],
                         nl="%d%d" % tuple(P["no_listen"]), cands=min(max_cands[0], 3), late="/".join(P["dilate_at"]), aged=aged)
     for (exc, frame, msg) in case.errors:
         res.notes["errlog:%s@%s" % (exc, frame)] += 1
